@@ -83,11 +83,16 @@ func c05History(rng *seqRng, g *seqGen) []string {
 	var lines []string
 	ndb := 1 + rng.n(3)
 	open := map[int]bool{}
+	txs := map[int][]int{} // open transactions per database (gone after Close / restart)
+	nextTx := 0
 	keys := []string{hexKey("k"), hexKey("j")}
 	emit := func(format string, a ...any) { lines = append(lines, fmt.Sprintf(format, a...)) }
 	observe := func(d int) {
 		for _, k := range keys {
 			emit("mdb %d g 0 %s", d, k)
+		}
+		for _, t := range txs[d] {
+			emit("mdb %d g %d %s", d, t, keys[rng.n(2)])
 		}
 		emit("mdb %d k 0", d)
 	}
@@ -102,21 +107,42 @@ func c05History(rng *seqRng, g *seqGen) []string {
 		}
 		r := rng.n(100)
 		switch {
-		case r < 45:
+		case r < 28:
 			emit("mdb %d s 0 %s %d set", d, keys[rng.n(2)], g.newContent(false))
-		case r < 52:
+		case r < 33:
 			emit("mdb %d d 0 %s", d, keys[rng.n(2)])
-		case r < 55:
+		case r < 35:
 			emit("mdb %d d 0 -", d) // Delete of the empty key is accepted
-		case r < 70:
+		case r < 47:
 			emit("mdb %d close", d)
 			open[d] = false
-		case r < 80:
+			delete(txs, d)
+		case r < 54:
 			emit("mdb restart")
 			open = map[int]bool{}
+			txs = map[int][]int{}
 			continue
-		case r < 85:
+		case r < 58:
 			emit("mdb %d gc", d)
+		case r < 68 && len(txs[d]) < 3:
+			nextTx++
+			txs[d] = append(txs[d], nextTx)
+			emit("mdb %d b %d %s", d, nextTx, seqLevels[rng.n(4)])
+		case r < 84 && len(txs[d]) > 0:
+			t := txs[d][rng.n(len(txs[d]))]
+			if rng.n(5) == 0 {
+				emit("mdb %d d %d %s", d, t, keys[rng.n(2)])
+			} else {
+				emit("mdb %d s %d %s %d set", d, t, keys[rng.n(2)], g.newContent(false))
+			}
+		case r < 93 && len(txs[d]) > 0:
+			x := rng.n(len(txs[d]))
+			emit("mdb %d c %d", d, txs[d][x])
+			txs[d] = append(txs[d][:x], txs[d][x+1:]...)
+		case r < 96 && len(txs[d]) > 0:
+			x := rng.n(len(txs[d]))
+			emit("mdb %d r %d", d, txs[d][x])
+			txs[d] = append(txs[d][:x], txs[d][x+1:]...)
 		default:
 			observe(d)
 		}
@@ -126,6 +152,7 @@ func c05History(rng *seqRng, g *seqGen) []string {
 	}
 	// final: restart, reopen everything, observe
 	emit("mdb restart")
+	txs = map[int][]int{}
 	for d := 0; d < ndb; d++ {
 		emit("mdb %d open", d)
 		observe(d)
